@@ -47,6 +47,14 @@ class IPBase:
 #
 
 
+class InvalidAddress(ValueError, OSError):
+    """The text is not an IP address.
+
+    socket.inet_pton reports it as OSError and callers have always caught that; the
+    configuration parsers only turn ValueError into a syntax error.  It is both.
+    """
+
+
 class IP(IPBase):
     SELF = False
 
@@ -79,7 +87,10 @@ class IP(IPBase):
 
     @staticmethod
     def pton(ip: str) -> bytes:
-        return socket.inet_pton(IP.toaf(ip), ip)
+        try:
+            return socket.inet_pton(IP.toaf(ip), ip)
+        except OSError:
+            raise InvalidAddress(f"'{ip}' is not a valid IP address") from None
 
     @staticmethod
     def ntop(data: Buffer) -> str:
@@ -392,7 +403,10 @@ class IPv4(IP):
 
     @staticmethod
     def pton(ip: str) -> builtins.bytes:
-        return socket.inet_pton(socket.AF_INET, ip)
+        try:
+            return socket.inet_pton(socket.AF_INET, ip)
+        except OSError:
+            raise InvalidAddress(f"'{ip}' is not a valid IPv4 address") from None
 
     @staticmethod
     def ntop(data: Buffer) -> str:
@@ -452,7 +466,10 @@ class IPv6(IP):
 
     @staticmethod
     def pton(ip: str) -> builtins.bytes:
-        return socket.inet_pton(socket.AF_INET6, ip)
+        try:
+            return socket.inet_pton(socket.AF_INET6, ip)
+        except OSError:
+            raise InvalidAddress(f"'{ip}' is not a valid IPv6 address") from None
 
     @staticmethod
     def ntop(data: Buffer) -> str:
